@@ -12,6 +12,8 @@ SPECIALS = {
     'bos_eos': (['<unk>', '<bos>', '<eos>', '<pad>'], '<pad>', ['<bos>'], ['<eos>']),
     'dup_extra': (['<pad>', '<bos>', '<pad>', '<x>', '<bos>'], '<pad>', ['<bos>', '<bos>'], ['<x>']),
     'minimal': (['<pad>'], '<pad>', [], []),
+    # a repeated entry in front of the pad token (ids are assigned to the de-duplicated list)
+    'dup_before_pad': (['<bos>', '<eos>', '<bos>', '<pad>', '<eos>'], '<pad>', ['<bos>'], ['<eos>']),
     # several distinct prefix and suffix tokens (their order matters)
     # special tokens that contain regex metacharacters (the special-token pattern must match them literally)
     'meta': (['<pad>', '<|x|>', 'a.b'], '<pad>', [], ['<|x|>']),
